@@ -2,4 +2,4 @@ package main
 
 import "verifharness/c14"
 
-func init() { runners["C14"] = c14.Run }
+func init() { runners["C14"] = c14.Run; facts["C14"] = c14.Facts }
